@@ -46,7 +46,7 @@ def correspond(ctx):
         c["absent"] = se.absent_keywords(ctx.rng, c["name"], c["cfg"], c["db"], n=ctx.pick(6, 0))
     sk.correspond(ctx, res, cases)
     sk.direct(ctx, res, cases, oracle_for(res), history=True)
-    res.extra["schemes_with_theorem"] = ["PiBas", "PiPack", "SSE2", "PiPtr", "ANSS16", "CT14", "SSE1", "Pi2Lev"]
+    res.extra["schemes_with_theorem"] = ["PiBas", "PiPack", "SSE2", "PiPtr", "ANSS16", "CT14", "SSE1", "Pi2Lev", "DP17"]
     res.extra["schemes_modelled"] = list(sc.MODELLED)
     res.rule = (f"per scheme {n_cfg} supported configurations x {len(se.PROFILES)} database profiles; absent keywords derived from stored "
                 "ones (last byte dropped, NUL / byte appended, first byte dropped, first bit flipped, first byte doubled) plus a random one; "
